@@ -836,6 +836,17 @@ class Engine:
                 if nm in ("for_each", "try_for_each") and len(args) == 2 and self._closure_is_local(st, args[1]):
                     yield from self.fused_consumer(nm, frame, st, args, depth, site)
                     return
+                elif nm == "collect" and len(args) == 1 and self.is_pipeline(self.pipeline_of(st, args[0])) and not self.in_discovery \
+                        and hasattr(self, "callee_backedges"):
+                    # the items a `collect()` receives, one loop-body row per pipeline path (the collection itself stays opaque)
+                    sb = st.fork()
+                    sb.events.append(("loop", frame["fn"]["id"], "fused", ()))
+                    for s1, e in self.iter_elements(sb, args[0], depth, site):
+                        if e is ITER_END:
+                            continue
+                        if e is not ITER_SKIP:
+                            s1.events.append(("call", "fused:collect-item", (e,), site, False, None))
+                        self.callee_backedges.append((s1, site))
                 elif nm == "next" and len(args) == 1 and self.is_pipeline(self.pipeline_of(st, args[0])):
                     yield from self.fused_next(st, args[0], depth, site)
                     return
